@@ -1892,3 +1892,80 @@ def function_extreme_rules(info, module):
                         vals = [("s.%s %s" % (fld, d)) if a["t"] == "integer" else sample[a["t"]] for a in alt]
                         rules.append("for any s in pe.sections : (defined %s.%s(%s))" % (module, name, ", ".join(vals)))
     return rules
+
+
+# ------------------------------------------------------------------------------------------------ Rich header
+def pe_with_rich(entries, key=0x11223344):
+    """minimal PE32 with a masked Rich header; entries = [(toolid, version, times)]"""
+    f = bytearray(b"MZ") + bytes(0x3a)
+    hdr = struct.pack("<IIII", 0x536e6144 ^ key, key, key, key)
+    for t, v, n in entries:
+        hdr += struct.pack("<II", ((t << 16) | v) ^ key, (n & 0xFFFFFFFF) ^ key)
+    hdr += b"Rich" + struct.pack("<I", key)
+    lfanew = (0x40 + len(hdr) + 7) & ~7
+    f += struct.pack("<I", lfanew)
+    f += hdr
+    f += bytes(lfanew - len(f))
+    f += b"PE\0\0" + struct.pack("<HHIIIHH", 0x14c, 0, 0, 0, 0, 96, 0x0102)
+    f += struct.pack("<H", 0x10b) + bytes(94) + bytes(64)
+    return bytes(f)
+
+
+def rich_entries(b):
+    """[(file offset of the entry, toolid, version, times)] and the key of the Rich header of a PE, or None"""
+    lim = min(len(b), u32(b, 0x3c) if len(b) > 0x40 else 0)
+    r = b.find(b"Rich", 0x40, max(lim, 0x40))
+    if r < 0 or r + 8 > len(b):
+        return None
+    key = u32(b, r + 4)
+    dans = struct.pack("<I", 0x536e6144 ^ key)
+    d = b.find(dans, 0x40, r)
+    if d < 0:
+        return None
+    out = []
+    for o in range(d + 16, r - 7, 8):
+        c, n = u32(b, o) ^ key, u32(b, o + 4) ^ key
+        out.append((o, c >> 16, c & 0xFFFF, n))
+    return out, key
+
+
+def rich_rules(pairs, first_tag="a"):
+    """rules calling the aggregating functions with arguments that SELECT the data: (toolid, version) pairs present"""
+    rules = []
+    for t, v in pairs[:6]:
+        for cond in ("pe.rich_signature.version(%d) >= 0" % v, "pe.rich_signature.version(%d, %d) >= 0" % (v, t),
+                     "pe.rich_signature.toolid(%d) >= 0" % t, "pe.rich_signature.toolid(%d, %d) >= 0" % (t, v)):
+            if not any(r["cond"] == cond for r in rules):
+                rules.append({"tag": "%s%d" % (first_tag, len(rules)), "imports": ["pe"], "cond": cond})
+    return rules
+
+
+def rich_family(assets):
+    """Extreme DATA behind the aggregating functions pe.rich_signature.version / toolid: counts at the numeric limits in
+    entries that one query selects together.  Synthetic headers and the Rich headers of the assets (times := extremes,
+    entries made duplicates of each other).  Yields (what, asset path or None, base_hex or None, edits, rules)."""
+    M = 0xFFFFFFFF
+    for name, ents in (("max+1", [(1, 2, M), (1, 2, 1)]), ("max,max,1", [(1, 2, M), (1, 2, M), (1, 2, 1)]),
+                       ("2^31 twice", [(1, 2, 1 << 31), (1, 2, 1 << 31)]), ("same version other tool", [(1, 2, M), (3, 2, M)]),
+                       ("same tool other version", [(1, 2, M), (1, 5, M)]), ("30 x max", [(1, 2, M)] * 30),
+                       ("small", [(1, 2, 3), (1, 2, 4)]), ("max alone", [(7, 9, M)]),
+                       ("u16 limits", [(0xFFFF, 0xFFFF, M), (0xFFFF, 0xFFFF, M), (0, 0, M), (0, 0, 2)])):
+        pairs = sorted(set((t, v) for t, v, _ in ents))
+        yield ("rich synthetic " + name, None, pe_with_rich(ents).hex(), [], rich_rules(pairs))
+    for a in assets:
+        if a[2] != "pe" or len(a[1]) > 100000:
+            continue
+        re_ = rich_entries(a[1])
+        if not re_ or len(re_[0]) < 2:
+            continue
+        ents, key = re_
+        pairs = [(t, v) for _, t, v, _ in ents]
+        for val in (M, M - 1, 1 << 31, (1 << 31) - 1):
+            edits = [{"op": "set", "off": o + 4, "hex": enc(val ^ key, 4, False)} for o, _, _, _ in ents]
+            yield ("rich times=%#x" % val, a[0], None, edits, rich_rules(pairs))
+        # every entry a duplicate of the first one, counts at the limit
+        c0 = ((ents[0][1] << 16) | ents[0][2]) ^ key
+        edits = []
+        for o, _, _, _ in ents:
+            edits += [{"op": "set", "off": o, "hex": enc(c0, 4, False)}, {"op": "set", "off": o + 4, "hex": enc(M ^ key, 4, False)}]
+        yield ("rich duplicates of entry 0, times=max", a[0], None, edits, rich_rules(pairs[:1]))
